@@ -38,7 +38,7 @@ def main():
         return rep.finish()
     rng = SplitMix64(rep.seed).fork("C18")
     thorough = rep.tier == "thorough"
-    work = os.path.join(VERIF, ".cache", "c18work")
+    work = os.path.join(CACHE, "c18work")
     shutil.rmtree(work, ignore_errors=True)
     os.makedirs(work)
     dist = collections.Counter()
